@@ -8,7 +8,7 @@ CHECKS = {
                 "!=-form) ahead of every storage access, own or through the function it forwards to; every by-reference operand is a shared "
                 "reference to Freeze data in a crate without unsafe (so it cannot be changed: a type-system proof); every consuming operator "
                 "impl forwards to its borrowing counterpart in operand order; every Clone builds all fields from self and the types own their storage."
-            " Node and variable-index arguments of the mesh cross-sections, integrals and apply are rejected by an entry guard, not only inside a loop that an empty axis never enters.",
+            " Node and variable-index arguments of the mesh cross-sections, integrals and apply are rejected by an entry guard, not only inside a loop that an empty axis never enters. The shape-bookkeeping rules of the other properties (constructors, resize, delete/transpose shape updates: families shape / edit / transpose-shape) are imported crate-wide: every shape check reads dimensions that some constructor or edit recorded.",
         "design_ref": "DESIGN.md §3 C20, Appendix A",
         "note": "Trusted: rustc's type checker / is_freeze / callee resolution, std's bounds checks for the Vec-forwarded methods, the rule engine. "
                 "Element types assumed Freeze. Raw (i,j) index operators outside the claim as the property says. Decides guard structure, not run-time outcomes.",
@@ -21,7 +21,7 @@ CHECKS["C03"] = {
             "is used against another: the rule that found the set_col defect), result shape, operand polarity (Sub: rhs negative, Div: scalar is the divisor), "
             "co-indexing, full 0..dim ranges, norm orientation, product construction (same column on both sides), transpose/swap/delete/resize "
             "index arithmetic, and consuming forms forward in operand order."
-            " norm_p returns norm_max() for p = inf before the power-sum formula (whose value there is 1 for every matrix).",
+            " norm_p returns norm_max() for p = inf before the power-sum formula (whose value there is 1 for every matrix). Frame rule: every editing operation writes only the fields its definition changes (transitively through the `&mut self` methods it calls and through self[(i,j)]); an early return of norm_1 / norm_inf is the formula specialised (norm_max() only when the summed dimension is 1).",
     "design_ref": "DESIGN.md §3 C03",
     "note": "Decides structure of each operation, not equality with a reference model over all values/histories (not decidable statically). "
             "Trusted: rustc typeck/callee resolution; the rule engine; Vec semantics (push/drain/clone).",
@@ -33,7 +33,7 @@ CHECKS["C13"] = {
     "text": "Proof-style obligations on single-path arithmetic bodies: each of the 14 operator/identity bodies equals the field formula as a rational "
             "function over Q (exact field arithmetic for exact element types); each of the 8 compound-assignment bodies, expanded statement by statement, "
             "is the same expression tree as its binary form modulo commutativity of + and * only (hence bit-identical IEEE results); no stale read of an "
-            "overwritten component; eq is the component conjunction, partial_cmp is lexicographic and neither impl overrides a derived operator; abs = sqrt(abs_sqr), arg = atan2(imag, real).",
+            "overwritten component; eq is the component conjunction, partial_cmp is lexicographic and neither impl overrides a derived operator; abs = sqrt(abs_sqr), arg = atan2(imag, real). No local trait implemented for Complex has a by-value method with the name of an inherent &self method (it would shadow it wherever the trait is in scope); the comparison traits define only their required method.",
     "design_ref": "DESIGN.md §3 C13",
     "note": "Trait calls on T are interpreted as ring operations. Not decided: rounding-error size over f64, trichotomy/transitivity on NaN-free values "
             "(properties of f64's own ordering). Trusted: rustc typeck, the rule engine's symbolic executor and polynomial normal form.",
@@ -43,7 +43,7 @@ CHECKS["C16"] = {
     "text": "For every (len, T>=1): the chunk bounds extracted from dot_f64 satisfy start_0 = 0, end_i = start_(i+1), end_(T-1) = len as polynomial "
             "identities (the chunks tile 0..len exactly once); both operands use the same window; the worker closure captures only &[f64], calls only "
             "slice len/index and f64 arithmetic and returns by value (no unsafe in the crate: schedule-free); handles are joined in spawn order into one accumulator; "
-            "sizes are compared first; T = num_cpus::get() is used unmodified.",
+            "sizes are compared first; T = num_cpus::get() is used unmodified. The function returns the joined sum itself (accumulator from 0.0, written only by the join loop, nothing post-processes it); the sequential reference Vector::dot satisfies C15's dot rule.",
     "design_ref": "DESIGN.md §3 C16",
     "note": "Trusted: num_cpus::get() >= 1, thread::scope joins all threads, (T-1)*floor(len/T) <= len. Not decided: the size of the re-association error.",
     "technique": TECH + "symbolic chunk-bound identities, closure capture modes from typeck, callee-set purity, ordered-reduction pattern",
@@ -83,7 +83,7 @@ CHECKS["C04"] = {
             "compact: n x (m1+m2+1) and the operators preserve it with the trait's operator; fill_band's guard entails its column; the matvec window provably never reads "
             "padding and indexes x by the true column; the pivot search compares magnitudes and is an arg-max; the row exchange, the sign flip and the recorded index are "
             "paired; det multiplies the sign by the full pivot column; solve replays the recorded exchanges and multipliers with the same offsets."
-            " Every division in decompose is dominated by a test that the pivot differs from zero (a singular band has determinant 0, not NaN).",
+            " Every division in decompose is dominated by a test that the pivot differs from zero (a singular band has determinant 0, not NaN). resize updates the layout on every path (no early return skips it); det runs the factorisation unconditionally (no shortcut for some bandwidths); a whole-row swap_rows of the compact copy is accepted as the exchange.",
     "design_ref": "DESIGN.md §3 C04",
     "note": "The initial left-shift/zero-fill is decided by resolving l as the induction variable m1 - i; the elimination window bound (l capped at n) is outside the linear prover; agreement with the dense result and backward error are numerical.",
     "technique": TECH + "single-fact linear entailment on index windows, magnitude/arg-max analysis, exchange/sign/index pairing, store/replay offset agreement",
@@ -101,14 +101,14 @@ CHECKS["C06"] = {
     "text": "For every shape and pattern: all five traversals of the structure have the one compressed-column walk shape with val and row_index co-indexed; "
             "the row_index value is used only in row positions and the walk's column only in column positions; the constructors establish the length invariant "
             "(paired pushes per drained triplet, col_start of cols+1); col_start is the exclusive prefix sum of the per-column counts; col_index expands the gaps; "
-            "get and insert share guards and membership test; insert overwrites the matching entry or rebuilds with the same shape; transpose allocates (cols, rows, nnz) and scatters consistently.",
+            "get and insert share guards and membership test; insert overwrites the matching entry or rebuilds with the same shape; transpose allocates (cols, rows, nnz) and scatters consistently. from_triplets only reorders its input (nothing filters or de-duplicates the list); an early return of scale needs the factor to equal T::one(); transpose is accepted with a running total, a next-free-slot array or counters zeroed in place.",
     "design_ref": "DESIGN.md §3 C06",
     "note": "from_vecs performs no validation (the property quantifies over well-formed raw arrays). Order-independence and equality with a reference model over all histories are not decided statically.",
     "technique": TECH + "walk-shape/co-indexing/role analysis over the three parallel arrays, paired-push and prefix-sum data-flow patterns, sibling agreement of get/insert",
 }
 CHECKS["C07"] = {
     "text": "For every rectangular shape: multiply scatters val[k]*x[j] into result[row_index[k]] under guard cols=len(x) with a rows-long result; transpose_multiply "
-            "gathers val[k]*x[row_index[k]] into result[j] under guard rows=len(x) with a cols-long result; the explicit transpose has the C06 shape; scale covers every stored value.",
+            "gathers val[k]*x[row_index[k]] into result[j] under guard rows=len(x) with a cols-long result; the explicit transpose has the C06 shape; scale covers every stored value. from_triplets keeps every triplet; an early return of scale needs the factor to equal T::one() (pure predicate methods such as is_one() are resolved to their comparison unless a local impl overrides the default).",
     "design_ref": "DESIGN.md §3 C07",
     "note": "Mixing row/column roles is a definite contradiction for every non-square shape (what the all-ones 5x5 test cannot see). Numerical equality with the dense product is not decided as a value statement.",
     "technique": TECH + "role-typed scatter/gather patterns on the compressed-column walk, guard/result-length agreement",
@@ -168,7 +168,7 @@ CHECKS["C11"] = {
             "(Sub with empty self returns -rhs); results have max(deg,deg')+1 resp. deg+deg'+1 zero-initialised coefficients with each operand guarded by its own degree; "
             "the product index is the sum of the factor indices over full ranges; eval is Horner from the leading coefficient with i descending; derivative uses target i, "
             "source i+1 and exactly i+1 repeated additions; derivative_n applies it n times; consuming forms forward in operand order; trim pops only trailing zeros; is_zero scans the full range."
-            " No operation is certain to panic on the empty polynomial (unsigned subtraction negative at length 0, constant-index read, unwrap of degree()) at a site an empty operand can reach.",
+            " No operation is certain to panic on the empty polynomial (unsigned subtraction negative at length 0, constant-index read, unwrap of degree()) at a site an empty operand can reach. Apart from the empty-operand cases every input of Add/Sub goes through the coefficient loop (no fast path keyed on anything else); derivative_at is derivative_n(n) evaluated at x on every path.",
     "design_ref": "DESIGN.md §3 C11",
     "note": "The ring and calculus laws as value equalities follow from these definitional formulae and are not decided as value statements.",
     "technique": TECH + "polarity on every return path, length/graded-index/Horner/derivative data-flow patterns, delegation check",
@@ -179,7 +179,7 @@ CHECKS["C12"] = {
             "with lead(r)/lead(v) at index deg r - deg v; one iteration does q <- q + t and r <- r - t*v with the same t and v (so u = q*v + r is a loop invariant in exact "
             "arithmetic); the cancelled leading coefficient of r is cleared explicitly (absorption test) so that progress does not rely on an exactly-zero rounding residue "
             "(the genuine defect this rule found: [1,1,1]/[49] returned Err); the loop exits on r = 0 or deg r < deg v and returns Ok((q, r))."
-            " The cancelled leading coefficient is removed unconditionally before trim (a value test on the rounding residue, component-wise for Complex, does not guarantee the degree drops).",
+            " The cancelled leading coefficient is removed unconditionally before trim (a value test on the rounding residue, component-wise for Complex, does not guarantee the degree drops). Before the loop polydiv refuses only a zero divisor (no other test turns a valid division into Err).",
     "design_ref": "DESIGN.md §3 C12, §4 no. 7",
     "note": "The size of the rounding error in q and r is not decided; nor is the astronomically unlikely chain of one-ulp residues that could still reach the cap.",
     "technique": TECH + "dominating Err guards, counter-capped loop shape + call-graph termination, term/update pairing, value-independent degree decrease",
@@ -215,7 +215,7 @@ CHECKS["C19"] = {
             "a clone of the same slot; cross-sections use the right axis, argument positions and full range; var_as_matrix is nx x ny with the flat map; 1-D/2-D trapezium use the "
             "two end points / four distinct corners of each cell with the right spacings and weight; interpolation is the linear formula on the bracketed cell, its snapping windows are "
             "literals not larger than 1e-6, and at a cell's end nodes it reduces to the stored nodal value using floating-point-exact simplifications only (never (a/b)*b = a); the writer's record "
-            "(coordinate + nvars values) matches the reader's stride and field order.",
+            "(coordinate + nvars values) matches the reader's stride and field order. The writer opens its file truncating it (File::create or OpenOptions with truncate(true)); the reader is accepted in the stride forms `i % stride == 0 / == var+1`, `step_by(stride)` and `vars[i / stride][i % stride - 1]`.",
     "design_ref": "DESIGN.md §3 C19",
     "note": "Exactness of quadrature/interpolation on (bi)linear data between the nodes and the printed-precision round trip are numerical and not decided statically. Grids are strictly increasing (the property's domain). Raw Mesh2D (i,j) indexing is outside the claim.",
     "technique": TECH + "flat-index map discovery + single-fact bounds proofs, accessor guards, corner-set / stride-agreement patterns",
